@@ -28,7 +28,7 @@ namespace vs {
 
 enum WaitKind { W_NONE, W_START, W_MUTEX, W_COND, W_RDLOCK, W_WRLOCK, W_JOIN, W_BARRIER };
 
-struct Mutex { int owner = -1; long locks = 0; };
+struct Mutex { int owner = -1; long locks = 0; bool recursive = false; int depth = 0; };
 struct Cond { std::vector<int> waiters; };
 struct RWLock { int writer = -1; std::set<int> readers; };
 
@@ -280,7 +280,11 @@ extern "C" {
 
 inline int vs_lazy_mutex(pthread_mutex_t *m) { (void)m; return 0; }
 
-int vs_pthread_mutex_init(pthread_mutex_t *m, const pthread_mutexattr_t *) { vs::S().mutexes[m] = vs::Mutex(); return 0; }
+int vs_pthread_mutex_init(pthread_mutex_t *m, const pthread_mutexattr_t *a) {
+  vs::Mutex mx; int type = PTHREAD_MUTEX_DEFAULT;
+  if (a && pthread_mutexattr_gettype(a, &type) == 0 && type == PTHREAD_MUTEX_RECURSIVE) mx.recursive = true;   // the attribute is part of the modelled object
+  vs::S().mutexes[m] = mx; return 0;
+}
 int vs_pthread_mutex_destroy(pthread_mutex_t *m) {
   vs::Sched &s = vs::S();
   auto it = s.mutexes.find(m);
@@ -292,6 +296,7 @@ int vs_pthread_mutex_lock(pthread_mutex_t *m) {
   vs::Mutex &mx = s.mutexes[m];
   if (!s.active || !vs::self) { mx.owner = 0; return 0; }
   vs::point(false);
+  if (mx.owner == vs::self->id && mx.recursive) { mx.depth++; return 0; }
   if (mx.owner == vs::self->id) vs::verdict("model-misuse", "pthread_mutex_lock on a mutex the caller already holds (self-deadlock): " + vs::describe_all());
   while (s.mutexes[m].owner != -1) { vs::self->wait = vs::W_MUTEX; vs::self->wait_obj = m; vs::block_until_enabled(); }
   vs::self->wait = vs::W_NONE;
@@ -304,15 +309,29 @@ int vs_pthread_mutex_trylock(pthread_mutex_t *m) {
   if (!s.active || !vs::self) { vs::Mutex &mx = s.mutexes[m]; if (mx.owner != -1) return EBUSY; mx.owner = 0; return 0; }
   vs::point(false);
   vs::Mutex &mx = s.mutexes[m];
+  if (mx.owner == vs::self->id && mx.recursive) { mx.depth++; return 0; }
   if (mx.owner != -1) return EBUSY;
   mx.owner = vs::self->id; mx.locks++;
   return 0;
+}
+// a timed lock: the deadline is modelled as "may expire whenever the mutex is still held after the other threads had a turn"
+int vs_pthread_mutex_timedlock(pthread_mutex_t *m, const struct timespec *) {
+  vs::Sched &s = vs::S();
+  if (!s.active || !vs::self) { vs::Mutex &mx = s.mutexes[m]; if (mx.owner != -1) return ETIMEDOUT; mx.owner = 0; return 0; }
+  for (int turn = 0; turn < 2; turn++) {
+    vs::point(false);
+    vs::Mutex &mx = s.mutexes[m];
+    if (mx.owner == vs::self->id && mx.recursive) { mx.depth++; return 0; }
+    if (mx.owner == -1) { mx.owner = vs::self->id; mx.locks++; return 0; }
+  }
+  return ETIMEDOUT;
 }
 int vs_pthread_mutex_unlock(pthread_mutex_t *m) {
   vs::Sched &s = vs::S();
   vs::Mutex &mx = s.mutexes[m];
   if (!s.active || !vs::self) { mx.owner = -1; return 0; }
   if (mx.owner != vs::self->id) vs::verdict("model-misuse", "pthread_mutex_unlock of a mutex the caller does not hold: " + vs::describe_all());
+  if (mx.recursive && mx.depth > 0) { mx.depth--; return 0; }
   mx.owner = -1;
   VSD("mutex_unlock %p", (void *)m);
   vs::point(false);
